@@ -3,7 +3,7 @@
 # /verif/toolchain from files on disk only. Idempotent.
 set -euo pipefail
 V="$(cd "$(dirname "$0")" && pwd)"
-TC="$V/toolchain"
+TC="${VERIF_TC:-$V/toolchain}"
 SRC="$V/tc/src"
 mkdir -p "$TC/bin" "$TC/include" "$TC/lib" "$V/evidence" "$V/work" "$V/replays"
 
@@ -37,5 +37,5 @@ mkdir -p "$TC/ovl"
 cp "$SRC/zz_verif_llvm14.go" "$TC/ovl/zz_verif_llvm14.go"
 
 # gofail / other helper binaries are built lazily by the checks that need them.
-[ -f "$V/rig/selftest.py" ] && python3 "$V/rig/selftest.py"
+if [ -z "${VERIF_TC:-}" ]; then python3 "$V/rig/selftest.py"; fi
 echo "setup ok"
